@@ -279,7 +279,7 @@ SHAPES = [(), (1,), (2,), (3,), (4,), (0,), (2, 3), (3, 2), (1, 3), (4, 1),
 SHAPE_W = [2, 1, 3, 6, 3, 1, 4, 3, 1, 1, 2, 1, 1, 1]
 
 TEMPLATES = ("none", "none", "none", "ring", "star", "chain", "pingpong",
-             "fanout", "multi", "forward")
+             "fanout", "multi", "forward", "crossing", "crossing")
 
 
 def _leaf_data(rng, shape, dtype):
@@ -478,6 +478,39 @@ class _Gen:
                 v = self.add_op(a, None, None)
                 if v is not None and self.vals[v]["rank"] == a:
                     self.add_comm(v, b)
+        elif name == "crossing":
+            # several inputs / stored intermediates of one rank are used both
+            # by a payload sent early and by a consumer of data received later
+            a, b = rng.sample(range(n), 2)
+            leaves = [heads[a]]
+            for _ in range(rng.randint(1, 3)):
+                leaves.append(self.add_input(a))
+            same = [v for v in leaves if self.np[v].shape == self.np[leaves[0]].shape]
+            crossing = []
+            for v in leaves:
+                if rng.random() < 0.5:
+                    w = self.add_op(a, rng.choice(["addc", "mulc", "neg"]), [v])
+                    if w is not None:
+                        self.vals[w]["stored"] = True
+                        v = w
+                crossing.append(v)
+            pay = crossing[0]
+            for v in crossing[1:]:
+                nxt = self.add_op(a, rng.choice(["add", "mul", "sub"]), [pay, v])
+                pay = nxt if nxt is not None else pay
+            if self.budget >= 2:
+                rv = self.add_comm(pay, b)
+                back = self.add_op(b, rng.choice(["addc", "neg", "sumb"]), [rv])
+                back = back if back is not None else rv
+                rb = self.add_comm(back, a)
+                acc = rb
+                order = crossing[:]
+                rng.shuffle(order)
+                for v in order:
+                    nxt = self.add_op(a, rng.choice(["add", "mul", "sub"]), [acc, v])
+                    acc = nxt if nxt is not None else acc
+                if rng.random() < 0.5:
+                    self.vals[acc]["stored"] = True
         elif name == "forward":
             order = list(range(n))
             rng.shuffle(order)
